@@ -80,11 +80,12 @@ def ctx_of_expr(e) -> tuple:
                 if kws == {'enable_neg_zero': False}:
                     return ('integer', rm(e.args[1]))
                 raise Unsupported('MPFixedContext(-1, ...) with a signed zero is not FPCore `integer`')
-            if ch[1] == 'FixedContext' and len(e.args) == 5 and isinstance(e.args[0], ast.Constant) and e.args[0].value is True:
+            if ch[1] == 'FixedContext' and len(e.args) == 5 and isinstance(e.args[0], ast.Constant) and isinstance(e.args[0].value, bool):
                 ov = _attr_chain(e.args[4])
                 if ov[:2] != ['fp', 'OV'] or ov[2] not in OV_NAMES:
                     raise Unsupported('overflow mode')
-                return ('fixed', _int_lit(e.args[1]), _int_lit(e.args[2]), rm(e.args[3]), OV_NAMES[ov[2]])
+                # an unsigned format has no FPCore spelling ((fixed s n) is two's complement): 'ufixed' matches no annotation
+                return ('fixed' if e.args[0].value else 'ufixed', _int_lit(e.args[1]), _int_lit(e.args[2]), rm(e.args[3]), OV_NAMES[ov[2]])
     raise Unsupported(f'context expression {ast.unparse(e)}')
 
 
